@@ -40,10 +40,6 @@ def asFS? (j : Json) : Option FS := do
   let ex ← (j.getObjVal? "extra").toOption.bind asNat?
   pure ⟨root, cwd, mx, ex⟩
 
-def strOf (p : PPath) : PName :=
-  let body := (p.parts.intersperse [SLASH]).flatten
-  if p.root = 0 ∧ p.parts = [] then dot else List.replicate p.root SLASH ++ body
-
 def jpath (p : PPath) : Json :=
   Json.mkObj [("root", jnat p.root), ("parts", jarr (p.parts.map jname)), ("name", jname p.name),
     ("suffix", jname (suffixOf p.name)), ("abs", Json.bool p.isAbsolute), ("str", jname (strOf p))]
